@@ -232,7 +232,7 @@ Section Find.
       cbn beta in Hind.
       assert (Hres : NoDup (@nil Z) /\ (forall k, k ∈ @nil Z -> k ∈ declared) /\
                      find_inv (fun e => e ∈ declared /\ e ∉ @nil Z) acc1).
-      { eapply Hind; [|split; [apply NoDup_sortZ|split; [auto|]]|exact E1].
+      { eapply Hind; [|split; [apply NoDup_sortZ|split; [intros ? Hk0; exact Hk0|]]|exact E1].
         - intros [gs0 rem] k rest acc' (Hnd' & Hsub & Hinv) Hstep.
           apply NoDup_cons in Hnd' as [Hk Hnd']. unfold find_pass1 in Hstep. cbn [fst snd] in Hstep.
           destruct (q_may_get q k) as [es|] eqn:Eg; cbn [rbind] in Hstep; [|discriminate].
@@ -257,9 +257,9 @@ Section Find.
     { destruct (set_empty (snd acc1)).
       - injection E2 as <-. destruct H1 as (A1 & A2 & A3 & A4 & A5).
         split; [exact A1|]. split; [exact A2|]. split; [auto|split; assumption].
-      - eapply (iterM_ind (find_pass2 q m declared)
+      - apply (fun hs he hp => iterM_ind (find_pass2 q m declared)
           (fun l acc => NoDup l /\ find_inv (fun e => e ∈ declared \/ e ∉ l) acc)
-          (find_inv (fun _ => True))); [| |split; [apply NoDup_qkeys|]|exact E2].
+          (find_inv (fun _ => True)) hs he (qkeys q) acc1 acc2 hp E2); [| |split; [apply NoDup_qkeys|]].
         + intros [gs0 rem] k rest acc' go (Hnd' & Hinv) Hstep.
           apply NoDup_cons in Hnd' as [Hk Hnd']. unfold find_pass2 in Hstep. cbn [fst snd] in Hstep.
           assert (Hweak : find_inv (fun e => e ∈ declared \/ e ∉ rest) (gs0, rem)).
